@@ -49,6 +49,8 @@ type Runner struct {
 	Timeout time.Duration
 	// Direct: call ReceiveBlob directly instead of blobserver.Receive.
 	Direct bool
+	// NoQuiesce: do not wait for background goroutines after a call (concurrent drivers).
+	NoQuiesce bool
 }
 
 func (r *Runner) ResetEvent(cfg string) gate.Event {
@@ -179,8 +181,10 @@ func quiesce(baseline int) {
 }
 
 func (r *Runner) withWatchdog(fn func(ctx context.Context) gate.Event, base gate.Event) gate.Event {
-	baseline := runtime.NumGoroutine()
-	defer quiesce(baseline)
+	if !r.NoQuiesce {
+		baseline := runtime.NumGoroutine()
+		defer quiesce(baseline)
+	}
 	to := r.Timeout
 	if to == 0 {
 		to = 20 * time.Second
